@@ -48,6 +48,10 @@ theorem stepThread_threads (s : Sys) (t : Thread) : (stepThread s t).1.threads =
   · split
     · simp only [release_threads]
     · rfl
+  · unfold keepUpgradeStep; split <;> rfl
+  · unfold keepLeaveStep; simp only [release_threads]
+  · rfl
+  · rfl
   · rfl
 
 theorem pcOfCall_ins (c : Call) : pcIns (pcOfCall c) = 0 := by cases c <;> rfl
@@ -116,6 +120,25 @@ theorem leaveStep_eff (s : Sys) (t : Thread) (r : Res) (h1 : insN t = 1) :
   · rename_i h; exact .leaveLast _ (by rw [insN_advance, h1]) h
   · rename_i h; exact .leaveMore _ (by rw [insN_advance, h1]) h
 
+theorem insN_kept (t : Thread) (k : List Bool) : insN { t with kept := k } = insN t := rfl
+
+theorem keepUpgradeStep_eff (s : Sys) (t : Thread) (h0 : insN t = 0) :
+    Eff s t (keepUpgradeStep s t).1 (keepUpgradeStep s t).2 := by
+  unfold keepUpgradeStep
+  split
+  · rename_i h; exact .enter _ (by simp only [insN] at h0 ⊢; rw [h0]; rfl) h
+  · rename_i h
+    exact .ignored _ (by have := insN_advance t .ignored; simp only [insN] at this h0 ⊢; omega) (by omega)
+
+theorem keepLeaveStep_eff (s : Sys) (t : Thread) (h1 : insN t = 1) :
+    Eff s t (keepLeaveStep s t).1 (keepLeaveStep s t).2 := by
+  unfold keepLeaveStep release
+  split
+  · rename_i h
+    exact .leaveLast _ (by have := insN_advance t .delivered; simp only [insN] at this h1 ⊢; omega) h
+  · rename_i h
+    exact .leaveMore _ (by have := insN_advance t .delivered; simp only [insN] at this h1 ⊢; omega) h
+
 theorem stepThread_eff (s : Sys) (t : Thread) : Eff s t (stepThread s t).1 (stepThread s t).2 := by
   unfold stepThread
   split
@@ -150,6 +173,12 @@ theorem stepThread_eff (s : Sys) (t : Thread) : Eff s t (stepThread s t).1 (step
       · rename_i h1; exact .hdropLast (by simp [insN, pcIns, hp]) h h1
       · rename_i h1; exact .hdropMore (by simp [insN, pcIns, hp]) h h1
     · rename_i h; exact .hdropGone (by simp [insN, pcIns, hp]) (by simpa using h)
+  · rename_i rest hp hc; exact keepUpgradeStep_eff s t (by simp [insN, pcIns, hp])
+  · rename_i rest hp hc; exact keepLeaveStep_eff s t (by simp [insN, pcIns, hp])
+  · rename_i rest hp hc; exact .start _ (by simp [insN, pcIns, hp]) (insN_advance t _)
+  · rename_i rest hp hc
+    exact .start _ (by simp [insN, pcIns, hp])
+      (by have := insN_advance t (.keptDropped t.kept.length); simp only [insN, kdropStep] at this ⊢; omega)
   · exact .noop
 
 theorem init_inv (progs : List (List Call)) : Inv (init progs) := by
@@ -266,6 +295,16 @@ theorem step_inv (s : Sys) (tid : Nat) (h : Inv s) : Inv (step s tid) := by
       exact { strong_eq := hse, inside_eq := by simp only at hic ⊢; omega, once := honce, ended := h.ended,
               handle_live := h.handle_live, gone := h.gone, no_late_entry := h.no_late_entry,
               no_busy_unwrap := h.no_busy_unwrap }
+
+/-- no thread is between its upgrade and its return ⇒ nothing is counted inside -/
+theorem insCount_zero_of_quiet (s : Sys) (hq : ∀ u ∈ s.threads, insN u = 0) : insCount s = 0 := by
+  unfold insCount
+  generalize s.threads = l at hq
+  induction l with
+  | nil => rfl
+  | cons x xs ih =>
+    simp only [List.map_cons, List.sum_cons]
+    rw [hq x (by simp), ih (fun u hu => hq u (by simp [hu]))]
 
 theorem run_inv (sched : List Nat) : ∀ s, Inv s → Inv (run s sched) := by
   induction sched with
